@@ -10,7 +10,8 @@
            values, attribute names are immutable values); evaluated on every dumped case *)
 From Coq Require Import ZArith List Bool.
 From DV Require Import Model.PyPrims Model.C12Model Model.C12Spec2 Proofs.C12Proofs Proofs.C12IsoTop Proofs.C12Examples
-  Proofs.C12AnnTop Proofs.C12FunTop Proofs.C12ImageTop Proofs.C12Examples2 Model.C12Shallow Proofs.C12ShallowTop.
+  Proofs.C12AnnTop Proofs.C12FunTop Proofs.C12ImageTop Proofs.C12Examples2 Model.C12Shallow Proofs.C12ShallowTop
+  Model.C12Spec3 Proofs.C12IsoFullTop.
 Import ListNotations.
 Open Scope Z_scope.
 
@@ -383,3 +384,157 @@ Theorem shallow_copy_bound_annotation_resolves_refuted : exists s' a2 t name,
   /\ bget (body_of (init_st false sh_heap []) 0) name = Some (P 1005).
 Proof. exact sh_heap_dangling. Qed.
 Print Assumptions shallow_copy_bound_annotation_resolves_refuted.
+
+(* ==== fifth wave: the full isomorphism (Model/C12Spec3.v, Proofs/C12IsoFull.v) ============================
+   iso_rel h s' root y a b  (written out: Model/C12Spec3.v) :=
+       reach h root a /\ reach (sh s') y b /\
+       (   In (a, b) (sc s')                 (b was allocated as the copy of a: memo[id(a)] = b)
+        \/ (a = b /\ 0 <= a < hlen h)        (shared: the copy reaches the very same old object)
+        \/ cont_pair h s' a b)               (a / b are x._annotations, its _item_list or its _item_set for a
+                                              recorded pair (x, b') of annotable objects: the three objects
+                                              `annotations.add` rebuilds)
+   viso rho v v' : equal immutable values, or references R a / R b with rho a b.
+   Additional executable hypothesis wf_heap4 (evaluated on every dumped case, counted by the harness): the
+   annotation set owned by an annotable object is exactly an AnnotationSet {_item_list: list of objects,
+   _item_set: the same members, target: the owner}, and no two owners share a set or a container.
+   wf_heap3s / wf_heap4 are GENUINE preconditions (they fail on copy-constructed sources - hidden twin - and on
+   per-cell annotation sets, where the copy is not isomorphic or raises); they are established by the model's
+   own builder: every annotation set the copy algorithm builds has exactly this shape
+   (deepcopy_annotation_sets_rebuilt: AnnState), and ex_heap / the dumped heaps satisfy them.
+
+   deepcopy_isomorphism: the correspondence is a GRAPH ISOMORPHISM between what the source root reaches and
+   what the copy reaches:
+     1  the roots correspond;
+     2  ONTO: every object the copy reaches is the image of a source object;
+     3  TOTAL: every object the source root reaches has an image, EXCEPT an EMPTY owned annotation set and its
+        two containers (empty_annset_part): the copy of an object whose `_annotations` lists nothing has no
+        `_annotations` attribute (it is created lazily on first access) - see deepcopy_raw_bijection_refuted;
+     4  INJECTIVE: no object of the copy is the image of two source objects;
+     5  SINGLE-VALUED: a source object has one image, EXCEPT (a) TUPLES - the model allocates a new tuple for
+        every tuple it copies and a second one for the re-targeted (owner, name) pair of a bound annotation, so
+        a source tuple that is aliased can have two content-identical images (deepcopy_tuple_single_valued_refuted;
+        the implementation does the same, and additionally hands back the SAME tuple when no member changed:
+        tuple_unchanged_same_content) - (b) an object that the copy ALSO reaches as a shared object (it is
+        referred to both from inside a seed / atomic object and from outside: copied and shared) - (c) an owned
+        _item_list / _item_set that is also referred to from elsewhere (copied generically and rebuilt);
+     6  what is shared is related to ITSELF only and everything else is related to a FRESH object
+        (deepcopy_extends_and_fresh: a shared object is reachable from a seed or an atomic object);
+     7  corresponding objects have the same class and kind, distinct keys on both sides, and every
+        attribute / slot / list position / dict entry / set member of the one has a corresponding entry
+        (corresponding key: equal names and indices, so list order is preserved; corresponding value) in the
+        other, both ways - EXCEPT the `_annotations` entry of an object whose set is empty (see 3). *)
+Theorem deepcopy_isomorphism : forall nf h seeds root fuel s' y,
+  wf_heap h seeds = true -> wf_heap2 h = true -> wf_heap3 h = true -> wf_heap3s h = true -> wf_heap4 h = true ->
+  root_seeds_ok h seeds root = true -> memz root (owned_list h) = false ->
+  0 <= root < hlen h -> (length h < fuel)%nat ->
+  run_seeded nf fuel h seeds root = Ok (s', R y) ->
+  iso_rel h s' root y root y
+  /\ (forall b, reach (sh s') y b -> exists a, iso_rel h s' root y a b)
+  /\ (forall a, reach h root a -> (exists b, iso_rel h s' root y a b) \/ empty_annset_part h a)
+  /\ (forall a a' b, iso_rel h s' root y a b -> iso_rel h s' root y a' b -> a = a')
+  /\ (forall a b b', iso_rel h s' root y a b -> iso_rel h s' root y a b' ->
+        b = b' \/ kind_at h a = Some KTuple \/ (reach (sh s') y a /\ a < hlen h)
+        \/ (In a (owned_conts h) /\ exists b0, In (a, b0) (sc s')))
+  /\ (forall a b, iso_rel h s' root y a b ->
+        (b < hlen h -> a = b) /\ (hlen h <= b -> 0 <= a < hlen h /\ a <> b))
+  /\ (forall a b, iso_rel h s' root y a b ->
+        exists oa ob, hget h a = Some oa /\ hget (sh s') b = Some ob /\ ocls oa = ocls ob /\ okind oa = okind ob
+          /\ NoDup (map fst (obody oa)) /\ NoDup (map fst (obody ob))
+          /\ (forall k v, In (k, v) (obody oa) ->
+                (exists k' v', In (k', v') (obody ob) /\ viso (iso_rel h s' root y) k k' /\ viso (iso_rel h s' root y) v v')
+                \/ (is_annk (okind oa) = true /\ k = NM_ANN /\ refs_of (ann_items h oa) = []
+                    /\ bget (obody ob) NM_ANN = None))
+          /\ (forall k' v', In (k', v') (obody ob) ->
+                exists k v, In (k, v) (obody oa) /\ viso (iso_rel h s' root y) k k' /\ viso (iso_rel h s' root y) v v')).
+Proof. exact deepcopy_isomorphism_l. Qed.
+Print Assumptions deepcopy_isomorphism.
+
+(* the isomorphism for the taxon-namespace-scoped copy (clone(1), Tree.__copy__): seeds = the namespace and
+   its taxa; with scoped_shares_exactly_namespace below, the objects related to themselves are exactly what
+   the namespace and its taxa (and atomic objects) reach *)
+Theorem scoped_copy_isomorphism : forall nf h root ns fuel s' y,
+  wf_heap h (ns_seeds h ns) = true -> wf_heap2 h = true -> wf_heap3 h = true -> wf_heap3s h = true -> wf_heap4 h = true ->
+  root_seeds_ok h (ns_seeds h ns) root = true -> memz root (owned_list h) = false ->
+  0 <= root < hlen h -> (length h < fuel)%nat ->
+  run nf fuel h root (RScoped ns) = Ok (s', R y) ->
+  iso_rel h s' root y root y
+  /\ (forall b, reach (sh s') y b -> exists a, iso_rel h s' root y a b)
+  /\ (forall a, reach h root a -> (exists b, iso_rel h s' root y a b) \/ empty_annset_part h a)
+  /\ (forall a a' b, iso_rel h s' root y a b -> iso_rel h s' root y a' b -> a = a')
+  /\ (forall a b, iso_rel h s' root y a b ->
+        (b < hlen h -> a = b) /\ (hlen h <= b -> 0 <= a < hlen h /\ a <> b)).
+Proof. exact scoped_copy_isomorphism_l. Qed.
+Print Assumptions scoped_copy_isomorphism.
+
+(* gap 2 closed: "shares EXACTLY the namespace and its taxa".  Both directions in one statement:
+   (only)  whatever both sides reach is reachable from the namespace, one of its taxa or an atomic object;
+   (every) the namespace and every taxon the source reaches, and everything below them, is reached by both
+           as the very same objects;
+   (self)  and in the isomorphism each of these objects corresponds to itself and to nothing fresh.
+   Remaining short of an `iff`: an atomic object (StateAlphabet) that the source reaches is not proved to be
+   reached by the copy as the same object (no invariant excludes that an atomic object is recorded). *)
+Theorem scoped_shares_exactly_namespace : forall nf h root ns fuel s' y,
+  wf_heap h (ns_seeds h ns) = true -> wf_heap2 h = true -> wf_heap3 h = true -> wf_heap3s h = true ->
+  root_seeds_ok h (ns_seeds h ns) root = true -> memz root (owned_list h) = false ->
+  0 <= root < hlen h -> (length h < fuel)%nat ->
+  run nf fuel h root (RScoped ns) = Ok (s', R y) ->
+  (forall o, reach (sh s') y o -> reach (sh s') root o ->
+     exists b, (In b (ns_seeds h ns) \/ is_atomic h b = true) /\ reach h b o)
+  /\ (forall b o, In b (ns_seeds h ns) -> reach h root b -> reach h b o ->
+        reach (sh s') y o /\ reach (sh s') root o /\ iso_rel h s' root y o o).
+Proof. exact scoped_shares_exactly_l. Qed.
+Print Assumptions scoped_shares_exactly_namespace.
+
+(* the hypotheses of deepcopy_isomorphism hold on the example heap, and the relation is not trivial there:
+   annotation 6 |-> 13, taxon 7 |-> 12, bound tuple 8 |-> 15, the rebuilt set is 16 with _item_list 17 = [13];
+   under the scoped copy the tree's namespace attribute still is 1 and the taxon 7 is not copied *)
+Theorem isomorphism_hypotheses_satisfiable :
+  (wf_heap4 ex_heap = true /\ root_ok4 ex_heap 0 = true)
+  /\ (exists s', run false 10 ex_heap 0 RDeep = Ok (s', R 9)
+      /\ In (6, 13) (sc s') /\ In (7, 12) (sc s') /\ In (8, 15) (sc s')
+      /\ bget (body_of s' 9) NM_ANN = Some (R 16) /\ body_of s' 17 = [(pidx 0, R 13)])
+  /\ (exists s', run false 10 ex_heap 0 (RScoped 1) = Ok (s', R 9)
+      /\ bget (body_of s' 9) (P 100) = Some (R 1) /\ ~ In 7 (map fst (sc s'))).
+Proof. exact (conj ex_wf4 ex_iso_pairs). Qed.
+Print Assumptions isomorphism_hypotheses_satisfiable.
+
+(* "a bijection between everything the source reaches and everything the copy reaches" is REFUTED (exception 3
+   is necessary): an annotable object with an EMPTY annotation set satisfies every hypothesis; the source
+   reaches 4 objects (object, AnnotationSet, list, set), its copy 1, and the copy has no `_annotations`.
+   Replayed on the implementation (t.annotations; copy.deepcopy(t): "_annotations" in t.__dict__ and not in the
+   copy's): same.  Not a defect: the attribute is created lazily by the `annotations` property. *)
+Theorem deepcopy_raw_bijection_refuted :
+  wf_heap empty_ann_heap [] = true /\ wf_heap2 empty_ann_heap = true /\ wf_heap3 empty_ann_heap = true
+  /\ wf_heap3s empty_ann_heap = true /\ wf_heap4 empty_ann_heap = true /\ root_seeds_ok empty_ann_heap [] 0 = true
+  /\ exists s', run_seeded false 6 empty_ann_heap [] 0 = Ok (s', R 4)
+       /\ reach_count empty_ann_heap 0 = 4%nat /\ reach_count (sh s') 4 = 1%nat
+       /\ bget (body_of s' 4) NM_ANN = None.
+Proof. exact raw_bijection_refuted_l. Qed.
+Print Assumptions deepcopy_raw_bijection_refuted.
+
+(* "single-valued on tuples" is REFUTED (exception 5a is necessary): the (owner, name) tuple 5 of a bound
+   annotation that is also the value of an attribute of the owner has two recorded copies, 7 and 9, BOTH
+   reachable from the copy, with identical content (copy, name); the source reaches 6 objects, the copy 7.
+   Replayed on the implementation (t.alias = a._value; t2 = copy.deepcopy(t): t2.alias is not
+   a2._value, t2.alias == a2._value, both bound to t2): same.  Not a defect: tuples are immutable. *)
+Theorem deepcopy_tuple_single_valued_refuted :
+  wf_heap alias_tuple_heap [] = true /\ wf_heap2 alias_tuple_heap = true /\ wf_heap3 alias_tuple_heap = true
+  /\ wf_heap3s alias_tuple_heap = true /\ wf_heap4 alias_tuple_heap = true /\ root_seeds_ok alias_tuple_heap [] 0 = true
+  /\ exists s', run_seeded false 8 alias_tuple_heap [] 0 = Ok (s', R 6)
+       /\ copies_of (sc s') 5 = [9; 7]
+       /\ existsb (Z.eqb 7) (reach_list (sh s') [6]) = true /\ existsb (Z.eqb 9) (reach_list (sh s') [6]) = true
+       /\ body_of s' 7 = [(pidx 0, R 6); (pidx 1, P 101)] /\ body_of s' 9 = [(pidx 0, R 6); (pidx 1, P 101)]
+       /\ reach_count alias_tuple_heap 0 = 6%nat /\ reach_count (sh s') 6 = 7%nat.
+Proof. exact tuple_single_valued_refuted_l. Qed.
+Print Assumptions deepcopy_tuple_single_valued_refuted.
+
+(* tuples whose members are all unchanged (immutable values, memo-seeded or atomic objects): the model's new
+   tuple has exactly the source tuple's content - the case in which CPython's _deepcopy_tuple hands back the
+   very same tuple (replayed: t.tp = (taxon, "x"); t.clone(1).tp is t.tp).  The dumper therefore numbers a
+   tuple once per side (c12_graph.py), and 6 above relates a source tuple to a fresh object in the model. *)
+Theorem tuple_unchanged_same_content :
+  exists s' t', run false 6 seeded_tuple_heap 0 (RScoped 1) = Ok (s', R 5)
+    /\ bget (body_of s' 5) (P 101) = Some (R t') /\ t' <> 4
+    /\ body_of s' t' = body_of (init_st false seeded_tuple_heap []) 4.
+Proof. exact tuple_unchanged_same_content_l. Qed.
+Print Assumptions tuple_unchanged_same_content.
